@@ -1596,6 +1596,60 @@ variant("data-close-then-return-on-drain-failure",
 	// error): what follows in the stream is not a command.
 	c.Close()
 }"""))
+variant("readline-readbytes",
+  ("conn.go", """	line, err := c.text.R.ReadString('\\n')
+	if err != nil {
+		if c.lineLimitReader.exceeded() {
+			return "", ErrTooLongLine
+		}
+		return "", err
+	}
+	line = strings.TrimSuffix(line, "\\n")
+	line = strings.TrimSuffix(line, "\\r")
+	return line, nil""", """	raw, err := c.text.R.ReadBytes('\\n')
+	if err != nil {
+		if c.lineLimitReader.exceeded() {
+			return "", ErrTooLongLine
+		}
+		return "", err
+	}
+	line := strings.TrimRight(string(raw), "\\r\\n")
+	return line, nil"""))
+variant("parsecmd-starttls-equalfold",
+  ("parse.go", """	case strings.HasPrefix(strings.ToUpper(line), "STARTTLS"):""", """	case len(line) >= 8 && strings.EqualFold(line[:8], "STARTTLS"):"""))
+variant("handledata-refusal-helper",
+  ("conn.go", """	if !c.fromReceived || len(c.recipients) == 0 {
+		c.writeResponse(502, EnhancedCode{5, 5, 1}, "Missing RCPT TO command.")
+		return
+	}
+
+	// We have recipients, go to accept data""", """	if !c.fromReceived || len(c.recipients) == 0 {
+		c.outOfOrder("Missing RCPT TO command.")
+		return
+	}
+
+	// We have recipients, go to accept data"""),
+  ("conn.go", "func (c *Conn) Server() *Server {", "func (c *Conn) outOfOrder(msg string) {\n	c.writeResponse(502, EnhancedCode{5, 5, 1}, msg)\n}\n\nfunc (c *Conn) Server() *Server {"))
+variant("rcpt-record-then-reply-swapped",
+  ("conn.go", """	c.recipients = append(c.recipients, recipient)
+	c.writeResponse(250, EnhancedCode{2, 0, 0}, fmt.Sprintf("I'll make sure <%v> gets this", recipient))""", """	c.writeResponse(250, EnhancedCode{2, 0, 0}, fmt.Sprintf("I'll make sure <%v> gets this", recipient))
+	c.recipients = append(c.recipients, recipient)"""))
+variant("caps-auth-local-bool",
+  ("conn.go", """	if c.authAllowed() {
+		mechs := c.authMechanisms()
+""", """	if offer := c.authAllowed(); offer {
+		mechs := c.authMechanisms()
+"""))
+variant("toolong-errors-is",
+  ("server.go", """			if err == ErrTooLongLine {""", """			if errors.Is(err, ErrTooLongLine) {"""))
+variant("starttls-lock-only-around-swap",
+  ("conn.go", """	c.conn = tlsConn
+	c.init()
+""", """	c.locker.Lock()
+	c.conn = tlsConn
+	c.locker.Unlock()
+	c.init()
+"""))
 if sys.argv[1:] == ['--export']:
     out = [{"id": "benign-" + n, "edits": [{"file": f, "old": o, "new": w} for f, o, w in V[n]]} for n in V]
     json.dump(out, open('/verif/liveness/benign.json', 'w'), indent=1)
